@@ -120,7 +120,9 @@ pub fn is_vint(val: u64) -> bool {
         return false;
     }
 
-    (val.ilog2() % 7) == 0
+    // The marker of an n-byte vint is bit 7n (n = 1..=8)
+    let marker_bit = val.ilog2();
+    marker_bit % 7 == 0 && marker_bit >= 7 && marker_bit <= 56
 }
 
 ///
